@@ -18,12 +18,14 @@ REPL = {
     'planar3->CNF': ('planar3', ['C', 'N', 'F'], [(0, 0, 0), (1.3, 0, 0), (-0.6, 1.3, 0.9)]),
     'collinear3->OCF': ('collinear3', ['O', 'C', 'F'], [(0, 0, 0), (1.2, 0, 0), (2.9, 0, 0)]),
     'collinear3->OCSN': ('collinear3', ['O', 'C', 'S', 'N'], [(0, 0, 0), (1.2, 0, 0), (2.7, 0, 0), (1.2, 1.0, 0.5)]),
+    'pseudo6->plusS': ('pseudo6', ['C', 'H', 'H', 'F', 'N', 'O', 'S'], [(0, 0, 0), (1.1, 0, 0), (-1.1, 0, 0), (0, 1.3, 0), (0, -0.5, 1.2), (0, -0.5, -1.2), (0.8, 0.9, 1.5)]),
     'single->F': ('single', ['F'], [(0, 0, 0)]),
     'single->FCl-long': ('single', ['F', 'Cl'], [(0, 0, 0), (14.5, 0.4, -8.2)]),
     'singleF->H': ('singleF', ['H'], [(0, 0, 0)]),
     'pair->CF': ('pair', ['C', 'F'], [(0, 0, 0), (1.35, 0, 0)]),
     'pairCF->pair': ('pairCF', ['C', 'H'], [(0, 0, 0), (1.09, 0, 0)]),
     'chiralCHSP->chiral4': ('chiralCHSP', ['C', 'H', 'N', 'O'], [(0, 0, 0), (1.0, 0, 0), (0, 1.2, 0), (0, 0, 1.4)]),
+    'weak-chiral6->weak-chiral6': ('weak-chiral6', ['C', 'N', 'O', 'F', 'S', 'P'], [(0, 0, 0), (1.5, 0, 0), (0.2, 1.6, 0), (-1.4, 0.3, 0), (1.1, -1.3, 0), (-0.6, -1.2, 0.07)]),
     'planar3->planar3': ('planar3', ['C', 'N', 'O'], [(0, 0, 0), (1.3, 0, 0), (-0.4, 1.1, 0)]),
     'collinear3->collinear3': ('collinear3', ['O', 'C', 'S'], [(0, 0, 0), (1.2, 0, 0), (2.7, 0, 0)]),
     'ch2-sym3->ch2-sym3': ('ch2-sym3', ['C', 'H', 'H'], [(0, 0, 0), (0.9, 0.6, 0), (-0.9, 0.6, 0)]),
@@ -70,7 +72,7 @@ def run_e2e(ctx, p):
     cellname, clusters, motif = STRUCTS[p['struct']]
     cell = CELLS[cellname]
     els, pos, groups = build_clusters(clusters)
-    shift = [ctx.real(f"t{k}", 0, 1) if k in p['axes'] else float(p.get('other', (0, 0, 0))[k]) for k in range(3)]
+    shift = [ctx.real(f"t{k}", *(p.get('ranges') or {}).get(str(k), (0, 1))) if k in p['axes'] else float(p.get('other', (0, 0, 0))[k]) for k in range(3)]
     rows = place(ctx, pos, cell, shift)
     st, order = make_structure(ctx, els, rows, cell)
     if p.get('charges'):
@@ -103,6 +105,12 @@ def run_e2e(ctx, p):
         jt = [ctx.real(f"jt{c}", -20, 20) for c in range(3)]
     search = make_pattern(ctx, None, elements=sel, positions=spos, translate=jt)
     replace = make_pattern(ctx, None, elements=rel, positions=rpos, translate=jt)
+    if p.get('search_type_offset'):
+        # the search pattern was cut out of a larger object: it carries that object's type table (its own types come after two foreign rows)
+        search.atom_type_elements = ['He', 'Ne'] + list(search.atom_type_elements)
+        search.atom_type_labels = ['He', 'Ne'] + list(search.atom_type_labels)
+        search.atom_type_masses = [4.0026, 20.18] + list(search.atom_type_masses)
+        search.atom_types = np.array([int(t) + 2 for t in search.atom_types])
     if p.get('pat_charges'):
         # a pattern cut from another, slightly differently charged, occurrence: charges of atoms that stay in place must not be overwritten
         replace.charges = np.array([0.4 + 0.1 * k for k in range(len(rel))])
@@ -190,6 +198,7 @@ def check_placement(ctx, p, R, bound=None):
     used = set()
     ok_all = True
     worst = 0.0
+    block_occ = []
     for b, blk in enumerate(blocks):
         if [els_res[r] for r in blk] != [R['rel'][k] for k in ins_idx]:
             ctx.fail('inserted atoms carry the replacement pattern elements in order', detail=dict(block=b))
@@ -224,10 +233,23 @@ def check_placement(ctx, p, R, bound=None):
             if best is None or dev < best[0]:
                 best = (dev, gi)
         used.add(best[1])
+        block_occ.append(best[1])
         worst = max(worst, best[0])
         ok_all = ok_all and best[0] <= bound
     ctx.require('matched + inserted atoms form a proper rigid image of search + replacement coordinates (mod lattice)', ok_all,
                 detail=dict(max_dev=worst, bound=bound))
+    if p.get('pattern_terms') and not p.get('symmetric') and removed is not None:
+        # the replacement pattern's bond (its atoms 0 and 1) must join, for every replaced match, the retained / inserted atoms of THAT match
+        surv = [i for i in range(N) if i not in set(removed)]
+        fin = {i: r for r, i in enumerate(surv)}
+        want = set()
+        for b, gi in enumerate(block_occ):
+            ends = []
+            for k in (0, 1):
+                ends.append(fin[occ[gi][sh[k]]] if k in sh else blocks[b][ins_idx.index(k)])
+            want.add(tuple(sorted(ends)))
+        got = set(tuple(sorted(int(x) for x in t)) for t in res.bonds)
+        ctx.require("the replacement pattern's bond joins the retained/inserted atoms of the same match", got == want, detail=dict(got=sorted(got), want=sorted(want)))
     return dict(n_surv=n_surv, sh=sh)
 
 
@@ -278,3 +300,18 @@ def same_sites(ctx, a_els, a_pos, b_els, b_pos, cell, tol=1e-5):
             return False, f'no site for original atom {i} ({a_els[i]})'
         free.remove(hit)
     return True, ''
+
+
+def second_replacement(ctx, st2, repl_name, cell, label='2nd: '):
+    """a further replacement on a (symbolic) structure produced by earlier steps; occurrences are taken from the real search (C01-C03's
+    subject), the placement oracle is the same as for a first replacement"""
+    smotif, rel, rpos = REPL[repl_name]
+    sel, spos = MOTIFS[smotif]
+    search = make_pattern(ctx, None, elements=sel, positions=np.array(spos, dtype=float))
+    replace = make_pattern(ctx, None, elements=rel, positions=np.array(rpos, dtype=float))
+    occ = [list(int(i) for i in t) for t in ctx.ms.mofun.find_pattern_in_structure(st2, make_pattern(ctx, None, elements=sel, positions=np.array(spos, dtype=float)), atol=A)]
+    snap = [list(r) for r in st2.positions]
+    res, count = ctx.ms.mofun.replace_pattern_in_structure(st2, search, replace, atol=A, return_num_matches=True)
+    R2 = dict(st=st2, res=res, count=count, occ=occ, els=list(st2.elements), cell=cell, search_el=list(sel), spos=np.array(spos, dtype=float), rel=list(rel),
+              rpos=np.array(rpos, dtype=float), snap_pos=snap, search=search, replace=replace, groups=[], pat_snap=([], []))
+    return R2
